@@ -252,8 +252,7 @@ theorem sortPass_ok (F k : Nat) (hk : 1 ≤ k) (s : CE α) (hne : s.choices.leng
 theorem swap_lexLe (cs cs' : Choices) (i j : Nat) (ci cj : UInt8) (hij : i < j)
     (hci : cs[i]? = some ci) (hlt : cj < ci)
     (h : applyIvs cs [(i, cj), (j, ci)] = some cs') : lexLe cs' cs = true := by
-  have := bsOk_pair i j ci (cj - ci + ci) hij cs cs' cj ci
-  -- reuse the pair lemma: only position `i` matters
+  -- only position `i` matters
   simp only [applyIvs] at h
   split at h
   · simp at h
